@@ -1,4 +1,10 @@
 #!/bin/bash
-# runs every seeded change through all claimed checks (scratch worktrees; /repo untouched) and prints a detection matrix
+# runs every seeded change through all claimed checks (scratch worktrees; /repo untouched) and prints a detection matrix:
+#   <seed id>: target=<property> caught-by: <properties whose check fails>   [TARGET-MISS when the targeted property's own check passes]
 cd /verif
-for d in seeded/*/; do id=$(basename $d); [ -f $d/patch.diff ] || continue; echo "$id: $(./seedtool.sh detect $PWD/$d/patch.diff 2>&1 | grep DETECT | sed 's/.*caught-by://')"; done
+for d in seeded/*/; do id=$(basename $d); [ -f $d/patch.diff ] || continue
+  tgt=${id%%-*}
+  c=$(./seedtool.sh detect $PWD/$d/patch.diff 2>&1 | grep DETECT | sed 's/.*caught-by://')
+  miss=""; case " $c " in *" $tgt "*) ;; *) miss="  TARGET-MISS";; esac
+  echo "$id: target=$tgt caught-by:$c$miss"
+done
